@@ -354,6 +354,43 @@ func c20Oracle(c *runCtx, id int, k c20Case, o c20Out) {
 	if len(o.Nodes) > 0 && (o.Start != o.Cursors[0] || o.End != o.Cursors[len(o.Cursors)-1]) {
 		c.violation(id, "C20/ends", "start/end cursor are not those of the first/last edge", o)
 	}
+	// the flags of the direction that is paged in, and the window between two matched cursors
+	idxOf := func(cur *string) int {
+		if cur == nil {
+			return -1
+		}
+		for i := 0; i < k.n; i++ {
+			if connections.OffsetToCursor(i) == *cur {
+				return i
+			}
+		}
+		return -1
+	}
+	a, b := idxOf(k.after), idxOf(k.before)
+	lo, hi := 0, k.n // the window the cursors leave: (after, before)
+	if a >= 0 {
+		lo = a + 1
+	}
+	if b >= 0 && b >= lo {
+		hi = b
+	}
+	for _, nd := range o.Nodes {
+		if nd < lo || nd >= hi {
+			c.violation(id, "C20/window", fmt.Sprintf("node %d lies outside the window the cursors leave [%d,%d)", nd, lo, hi), o)
+			break
+		}
+	}
+	// (with the opposite cursor given as well, elements beyond it exist and the flag may say so)
+	if k.first != nil && *k.first >= 0 && k.last == nil && k.before == nil {
+		if want := hi-lo > *k.first; o.HasNext != want {
+			c.violation(id, "C20/hasNext", fmt.Sprintf("hasNextPage=%v for first=%d over a window of %d elements", o.HasNext, *k.first, hi-lo), o)
+		}
+	}
+	if k.last != nil && *k.last >= 0 && k.first == nil && k.after == nil {
+		if want := hi-lo > *k.last; o.HasPrev != want {
+			c.violation(id, "C20/hasPrev", fmt.Sprintf("hasPreviousPage=%v for last=%d over a window of %d elements", o.HasPrev, *k.last, hi-lo), o)
+		}
+	}
 	if k.first != nil && *k.first >= 0 && len(o.Nodes) > *k.first {
 		c.violation(id, "C20/size", "more than `first` nodes returned", o)
 	}
